@@ -43,7 +43,7 @@ claim("C01", "DESIGN.md 6 C01",
       "unsignalled); non-selective strategy and race/race_ok/chain/wait_until - every waker ever handed out is the parent waker of that poll and firing it wakes that parent. "
       "C01_join_resolves_under_wake_driven_executor: under an executor that fires every child's most recent waker and then polls, a join of n>=1 Pending*-then-Ready children returns its positional result within (longest script) rounds and never unwinds; C01_join_family_returns_... (join and try_join), C01_merge_next_result_... and C01_zip_next_result_...: the stream form, from every reachable state (next item / row or the end within B rounds). The same for FutureGroup and StreamGroup after any history of inserts, removes and reserves (C01_group_next_result_..., the generic section speaks about occupied slots and the member a slot holds), for the join family from every reachable state, and - under every schedule of polls and wake-ups, since they keep no readiness of their own - for race, race_ok and chain (C01_race_resolves_..., C01_race_ok_resolves_..., C01_chain_next_result_...). "
       "C01_*_trace restate it over the observable trace (bookkeeping recomputed from the events); C01_fire_total_*: every handle ever handed out names an existing slot, so firing it never fails. "
-      "Nests of combinators are covered by universality (an inner combinator is an arbitrary child, a sub-waker an arbitrary parent) and instantiated by the harness in monitor-only suites. For every nest the harness builds (join of joins, a.join(b) of joins, join of races, race of joins, merge / chain / zip of merges, FutureGroup of joins, StreamGroup of merges) a Gallina composition of the single-level models (coq/Model/Nest.v nest_run, extracted; a definition without theorems of its own) predicts the leaf-level trace, which is compared with the crate's. "
+      "Nests of combinators are covered by universality (an inner combinator is an arbitrary child, a sub-waker an arbitrary parent) and instantiated by the harness in monitor-only suites. For every nest the harness builds (join of joins, a.join(b) of joins, join of races, race of joins, merge / chain / zip of merges, FutureGroup of joins, StreamGroup of merges, try_join of try_joins; over Vecs, arrays and tuples) a Gallina composition of the single-level models (coq/Model/Nest.v nest_run, extracted; a definition without theorems of its own) predicts the leaf-level trace, which is compared with the crate's. "
       "Partial: real thread interleavings are represented by the lock windows of the model (a wake is atomic with respect to a poll's critical sections); the thorough tier exercises that assumption with real threads (mt-harness: 40 000 cases, every Pending child woken from a second OS thread, hang / panic / wrong result reported)." + COMMON)
 claim("C02", "DESIGN.md 6 C02",
       "Ledger theorems over the complete history closed by a drop (any drop point, a panic at any child poll, a poll after completion): every child dropped exactly once, "
